@@ -1,6 +1,6 @@
 (* Proofs about Model/Convert.v (C04, C05). *)
 From Coq Require Import List NArith ZArith Bool Arith Lia.
-From PyD Require Import Base.Str Base.Dec Model.Hier Model.Mrs Model.Convert Proofs.HierP.
+From PyD Require Import Base.Str Base.Dec Model.Hier Model.Mrs Model.Convert Proofs.HierP Proofs.MrsP.
 Import ListNotations.
 
 Lemma combine_map_snd {A B} (l1 : list A) (l2 : list B) :
@@ -31,18 +31,280 @@ Proof.
   apply seq_opt_length in E. rewrite map_length in E. exact E.
 Qed.
 
-(* one node per predication, in order, with predicate and constant *)
-Theorem dmrs_nodes_basic m d : dmrs_from_mrs m = COk d ->
-  map (fun n => (dn_pred n, dn_carg n)) (d_nodes d) = map (fun e => (e_pred e, e_carg e)) (m_rels m).
+(* ---- C04: nodes ---- *)
+Theorem dmrs_nodes_spec m d : dmrs_from_mrs m = COk d ->
+  exists ids reps, ep_ids (m_rels m) = Some ids /\ representatives m = Some reps /\
+    d_nodes d = map (node_of m ids) (eps m ids) /\
+    map snd (eps m ids) = m_rels m /\
+    d_links d = flat_map fst (per_arg m ids reps) ++ mod_links ids reps.
 Proof.
   unfold dmrs_from_mrs.
   destruct (ep_ids (m_rels m)) as [ids|] eqn:Ei; [|discriminate].
   destruct (representatives m) as [reps|]; [|discriminate].
-  match goal with |- context [match ?T with COk _ => _ | CIndexError => _ | CInvalid => _ end] =>
-    destruct T as [[top w1]| |]; try discriminate end.
+  unfold conv_result. destruct (top_of m ids reps) as [[top w1]| |]; try discriminate.
   intros H. inversion H; subst; clear H. simpl.
-  rewrite map_map.
-  pose proof (ep_ids_length _ _ Ei) as L.
-  rewrite <- (combine_map_snd ids (m_rels m) L) at 2. rewrite map_map.
-  apply map_ext. intros [i e]. simpl. destruct (is_quant e); [reflexivity|]. destruct (e_iv e); reflexivity.
+  exists ids, reps. repeat split; try reflexivity.
+  unfold eps. apply combine_map_snd. apply (ep_ids_length _ _ Ei).
+Qed.
+
+(* a node carries the predicate and constant of its predication and the type
+   and properties of its intrinsic variable *)
+Theorem node_of_spec m ids i e :
+  let n := node_of m ids (i, e) in
+  dn_pred n = e_pred e /\ dn_carg n = e_carg e /\ dn_id n = nid_of ids i /\
+  (is_quant e = false -> forall v, e_iv e = Some v ->
+     dn_type n = var_type v /\
+     dn_props n = match dict_get v (m_vars m) with Some p => p | None => [] end) /\
+  (is_quant e = true -> dn_type n = None /\ dn_props n = []).
+Proof.
+  simpl. destruct (is_quant e) eqn:Q; simpl.
+  - split; [reflexivity|]. split; [reflexivity|]. split; [reflexivity|].
+    split; [intros X; discriminate | intros _; split; reflexivity].
+  - destruct (e_iv e) as [v|] eqn:V; simpl.
+    + split; [reflexivity|]. split; [reflexivity|]. split; [reflexivity|].
+      split; [|intros X; discriminate].
+      intros _ v' E. inversion E; subst. split; reflexivity.
+    + split; [reflexivity|]. split; [reflexivity|]. split; [reflexivity|].
+      split; [intros _ v' E; discriminate | intros X; discriminate].
+Qed.
+
+Theorem dmrs_nodes_basic m d : dmrs_from_mrs m = COk d ->
+  map (fun n => (dn_pred n, dn_carg n)) (d_nodes d) = map (fun e => (e_pred e, e_carg e)) (m_rels m).
+Proof.
+  intros H. destruct (dmrs_nodes_spec m d H) as (ids & reps & _ & _ & Hn & Hs & _).
+  rewrite Hn, <- Hs, !map_map. apply map_ext. intros [i e]. simpl.
+  destruct (is_quant e); [reflexivity|]. destruct (e_iv e); reflexivity.
+Qed.
+
+(* ---- C04: every link is justified by the source ---- *)
+Lemma iv_to_nid_some m ids v n : iv_to_nid m ids v = Some n ->
+  exists p, In p (eps m ids) /\ is_quant (snd p) = false /\ e_iv (snd p) = Some v /\ n = nid_of ids (fst p).
+Proof.
+  unfold iv_to_nid.
+  assert (G : forall l acc,
+            fold_left (fun acc p => if negb (is_quant (snd p)) &&
+                                       match e_iv (snd p) with Some x => str_eqb x v | None => false end
+                                    then Some (nid_of ids (fst p)) else acc) l acc = Some n ->
+            acc = Some n \/
+            exists p, In p l /\ is_quant (snd p) = false /\ e_iv (snd p) = Some v /\ n = nid_of ids (fst p)).
+  { induction l as [|p l IH]; intros acc H; simpl in H; [left; exact H|].
+    destruct (IH _ H) as [E|(q & Hq & R)].
+    - destruct (negb (is_quant (snd p)) && match e_iv (snd p) with Some x => str_eqb x v | None => false end) eqn:C.
+      + right. exists p. apply andb_true_iff in C. destruct C as [C1 C2].
+        apply negb_true_iff in C1. destruct (e_iv (snd p)) as [x|] eqn:Ex; [|discriminate].
+        apply str_eqb_spec in C2. subst x. inversion E; subst.
+        split; [left; reflexivity|]. auto.
+      + left. exact E.
+    - right. exists q. split; [right; exact Hq | exact R]. }
+  intros H. destruct (G _ _ H) as [E|R]; [discriminate | exact R].
+Qed.
+
+Inductive link_justified (m : mrs) (ids : list str) (reps : list (str * list str))
+  : Z * Z * str * str -> Prop :=
+| lj_arg i e role tgt p post :
+    (* the start predication has that role, its value is the intrinsic variable of the
+       (non-quantifier) target predication; EQ/NEQ by label identity *)
+    In (i, e) (eps m ids) -> In (role, tgt) (ep_arguments None e) ->
+    In p (eps m ids) -> is_quant (snd p) = false -> e_iv (snd p) = Some tgt ->
+    post = match label_of_id m ids tgt with
+           | Some l => if str_eqb (e_label e) l then POST_EQ else POST_NEQ
+           | None => POST_NEQ end ->
+    link_justified m ids reps (nid_of ids i, nid_of ids (fst p), role, post)
+| lj_h i e role tgt c r rest :
+    (* the value is the hole of a handle constraint; the target is the first
+       representative of the scope it selects *)
+    In (i, e) (eps m ids) -> In (role, tgt) (ep_arguments None e) ->
+    hc_get (m_hcons m) tgt = Some c -> dict_get (snd c) reps = Some (r :: rest) ->
+    link_justified m ids reps (nid_of ids i, nid_of ids r, role, POST_H)
+| lj_heq i e role tgt r rest :
+    (* the value is a label; the target is the first representative of that scope *)
+    In (i, e) (eps m ids) -> In (role, tgt) (ep_arguments None e) ->
+    hc_get (m_hcons m) tgt = None -> dict_get tgt reps = Some (r :: rest) ->
+    link_justified m ids reps (nid_of ids i, nid_of ids r, role, POST_HEQ)
+| lj_mod lbl f rest s :
+    (* MOD/EQ from a later to the first representative of one scope *)
+    In (lbl, f :: rest) reps -> In s rest ->
+    link_justified m ids reps (nid_of ids s, nid_of ids f, MOD_ROLE, POST_EQ).
+
+Theorem dmrs_links_justified m d : dmrs_from_mrs m = COk d ->
+  exists ids reps, ep_ids (m_rels m) = Some ids /\ representatives m = Some reps /\
+    forall l, In l (d_links d) -> link_justified m ids reps l.
+Proof.
+  intros H. destruct (dmrs_nodes_spec m d H) as (ids & reps & Hi & Hr & _ & _ & Hl).
+  exists ids, reps. split; [exact Hi|]. split; [exact Hr|].
+  intros l Hin. rewrite Hl in Hin. apply in_app_or in Hin. destruct Hin as [Hin|Hin].
+  - apply in_flat_map in Hin. destruct Hin as ([ls w] & Hpa & Hl'). simpl in Hl'.
+    unfold per_arg in Hpa. apply in_flat_map in Hpa. destruct Hpa as ([i e] & Hp & Hm).
+    apply in_map_iff in Hm. destruct Hm as ([role tgt] & E & Hrv). simpl in *.
+    unfold arg_link in E.
+    destruct (iv_to_nid m ids tgt) as [endn|] eqn:Eiv.
+    + inversion E; subst ls w. destruct Hl' as [<-|[]].
+      destruct (iv_to_nid_some _ _ _ _ Eiv) as (p & Hp' & Q & V & ->).
+      eapply lj_arg; eauto.
+    + destruct (hc_get (m_hcons m) tgt) as [c|] eqn:Ehc.
+      * destruct (dict_get (snd c) reps) as [[|r rest]|] eqn:Er; inversion E; subst ls w;
+          try (destruct Hl'; fail).
+        destruct Hl' as [<-|[]]. eapply lj_h; eauto.
+      * destruct (dict_get tgt reps) as [[|r rest]|] eqn:Er; inversion E; subst ls w;
+          try (destruct Hl'; fail).
+        destruct Hl' as [<-|[]]. eapply lj_heq; eauto.
+  - unfold mod_links in Hin. apply in_flat_map in Hin. destruct Hin as ([lbl rs] & Hlr & Hm). simpl in Hm.
+    destruct rs as [|f rest]; [destruct Hm|].
+    apply in_map_iff in Hm. destruct Hm as (s & <- & Hs). eapply lj_mod; eauto.
+Qed.
+
+(* ---- C05 ---- *)
+Lemma rename_nodes_ids new_ids nodes :
+  map en_id (rename_nodes new_ids nodes) = map (rename_id new_ids) (map en_id nodes).
+Proof. unfold rename_nodes. rewrite !map_map. reflexivity. Qed.
+
+Lemma rename_nodes_attrs new_ids nodes :
+  map (fun n => (en_pred n, en_type n, en_props n, en_carg n)) (rename_nodes new_ids nodes) =
+  map (fun n => (en_pred n, en_type n, en_props n, en_carg n)) nodes.
+Proof. unfold rename_nodes. rewrite map_map. reflexivity. Qed.
+
+Lemma add_pm_edge_attrs addl nodes :
+  map (fun n => (en_id n, en_pred n, en_type n, en_props n, en_carg n)) (map (add_pm_edge addl) nodes) =
+  map (fun n => (en_id n, en_pred n, en_type n, en_props n, en_carg n)) nodes.
+Proof.
+  rewrite map_map. apply map_ext. intros n. unfold add_pm_edge.
+  destruct (dict_get (en_id n) addl); reflexivity.
+Qed.
+
+Lemma base_node_attrs m deps p :
+  let n := base_node m deps p in
+  en_id n = fst p /\ en_pred n = e_pred (snd p) /\ en_carg n = e_carg (snd p) /\
+  (is_quant (snd p) = false -> forall v, e_iv (snd p) = Some v ->
+     en_type n = var_type v /\
+     en_props n = match dict_get v (m_vars m) with Some pr => pr | None => [] end).
+Proof.
+  destruct p as [i e]. simpl. destruct (is_quant e) eqn:Q; simpl.
+  - split; [reflexivity|]. split; [reflexivity|]. split; [reflexivity|]. intros X; discriminate.
+  - destruct (e_iv e) as [v|]; simpl.
+    + split; [reflexivity|]. split; [reflexivity|]. split; [reflexivity|].
+      intros _ v' E. inversion E; subst. split; reflexivity.
+    + split; [reflexivity|]. split; [reflexivity|]. split; [reflexivity|]. intros _ v' E. discriminate.
+Qed.
+
+(* the keys of the renaming table are the predication ids, in order *)
+Lemma new_ids_keys eps : map fst (new_ids_of eps) = map fst eps.
+Proof.
+  unfold new_ids_of.
+  assert (G : forall (l : list (str * ep)) (out : list (str * str)) (k : Z),
+            map fst (fst (fold_left (fun (acc : list (str * str) * Z) (p : str * ep) =>
+               let '(out, k) := acc in
+               let '(i, e) := p in
+               match e_iv e with
+               | Some v => if is_quant e then (out ++ [(i, 95%N :: Z_to_dec k)], (k + 1)%Z)
+                           else (out ++ [(i, v)], k)
+               | None => (out ++ [(i, 95%N :: Z_to_dec k)], (k + 1)%Z)
+               end) l (out, k))) = map fst out ++ map fst l).
+  { induction l as [|[i e] l IH]; intros out k; simpl; [rewrite app_nil_r; reflexivity|].
+    destruct (e_iv e) as [v|]; [destruct (is_quant e)|]; rewrite IH, map_app, <- app_assoc; reflexivity. }
+  rewrite G. reflexivity.
+Qed.
+
+Lemma dict_get_nodup_nth {A} (l : list (str * A)) : NoDup (map fst l) ->
+  forall k v, In (k, v) l -> dict_get k l = Some v.
+Proof.
+  induction l as [|[k0 v0] l IH]; intros Hnd k v Hin; [destruct Hin|].
+  inversion Hnd as [|? ? Hn Hnd']; subst. simpl.
+  destruct Hin as [E|Hin].
+  - inversion E; subst. rewrite str_eqb_refl. reflexivity.
+  - destruct (str_eqb k0 k) eqn:E.
+    + apply str_eqb_spec in E. subst k0. exfalso. apply Hn. apply in_map_iff. exists (k, v). auto.
+    + apply IH; assumption.
+Qed.
+
+Lemma map_rename_keys (l : list (str * str)) : NoDup (map fst l) ->
+  map (rename_id l) (map fst l) = map snd l.
+Proof.
+  intros Hnd. rewrite map_map. apply map_ext_in. intros [k v] Hin. unfold rename_id. simpl.
+  rewrite (dict_get_nodup_nth l Hnd k v Hin). reflexivity.
+Qed.
+
+(* C05: with unique_ids the node identifiers of the result are pairwise distinct *)
+Theorem renamed_ids_unique eps nodes :
+  NoDup (map fst eps) -> map en_id nodes = map fst eps ->
+  nodupb (map snd (new_ids_of eps)) = true ->
+  NoDup (map en_id (rename_nodes (new_ids_of eps) nodes)).
+Proof.
+  intros Hnd Hids Hb. rewrite rename_nodes_ids, Hids, <- (new_ids_keys eps).
+  rewrite map_rename_keys by (rewrite new_ids_keys; exact Hnd).
+  apply Proofs.MrsP.nodupb_spec. exact Hb.
+Qed.
+
+(* C05: the nodes of the converted EDS *)
+Theorem eds_nodes_spec m pm uniq e : eds_from_mrs m pm uniq = COk e ->
+  exists ids, ep_ids (m_rels m) = Some ids /\
+    (* one node per predication, in order, with predicate, constant, type and properties *)
+    map (fun n => (en_pred n, en_carg n)) (e_nodes e) = map (fun x => (e_pred x, e_carg x)) (m_rels m) /\
+    (forall k n x, nth_error (e_nodes e) k = Some n -> nth_error (m_rels m) k = Some x ->
+       is_quant x = false -> forall v, e_iv x = Some v ->
+       en_type n = var_type v /\ en_props n = match dict_get v (m_vars m) with Some pr => pr | None => [] end) /\
+    (* unique identifiers *)
+    (NoDup ids -> NoDup (map en_id (e_nodes e))).
+Proof.
+  unfold eds_from_mrs.
+  destruct (ep_ids (m_rels m)) as [ids|] eqn:Ei; [|discriminate].
+  destruct (representatives m) as [reps|]; [|discriminate].
+  set (eps := combine ids (m_rels m)).
+  destruct (eds_top m ids reps) as [[top w1]| |]; try (intros H; discriminate).
+  2:{ destruct (eds_deps m ids reps) as [[d| |] w]; intros H; discriminate. }
+  destruct (eds_deps m ids reps) as [[deps| |] w2]; try (intros H; discriminate).
+  set (nodes0 := map (base_node m deps) eps).
+  match goal with |- context [map (add_pm_edge ?A) nodes0] => set (addl := A) end.
+  set (nodes1 := map (add_pm_edge addl) nodes0).
+  assert (L : length ids = length (m_rels m)) by (apply ep_ids_length; exact Ei).
+  assert (Hsnd : map snd eps = m_rels m) by (apply combine_map_snd; exact L).
+  assert (Hfst : map fst eps = ids).
+  { unfold eps. clear -L. revert L. generalize (m_rels m). induction ids as [|i ids IH]; intros [|r rs] L;
+      simpl in *; try lia; try reflexivity. f_equal. apply IH. lia. }
+  assert (A1 : map (fun n => (en_id n, en_pred n, en_type n, en_props n, en_carg n)) nodes1 =
+               map (fun n => (en_id n, en_pred n, en_type n, en_props n, en_carg n)) nodes0)
+    by apply add_pm_edge_attrs.
+  assert (Hid1 : map en_id nodes1 = ids).
+  { transitivity (map (fun t => fst (fst (fst (fst t)))) (map (fun n => (en_id n, en_pred n, en_type n, en_props n, en_carg n)) nodes1)).
+    - rewrite map_map. reflexivity.
+    - rewrite A1, map_map. unfold nodes0. rewrite map_map. rewrite <- Hfst. apply map_ext.
+      intros p. simpl. apply (base_node_attrs m deps p). }
+  assert (Hattr : forall nodes, map (fun n => (en_pred n, en_type n, en_props n, en_carg n)) nodes =
+                                map (fun n => (en_pred n, en_type n, en_props n, en_carg n)) nodes1 ->
+            map (fun n => (en_pred n, en_carg n)) nodes = map (fun x => (e_pred x, e_carg x)) (m_rels m) /\
+            (forall k n x, nth_error nodes k = Some n -> nth_error (m_rels m) k = Some x ->
+               is_quant x = false -> forall v, e_iv x = Some v ->
+               en_type n = var_type v /\ en_props n = match dict_get v (m_vars m) with Some pr => pr | None => [] end)).
+  { intros nodes Hn.
+    assert (B : map (fun n => (en_pred n, en_type n, en_props n, en_carg n)) nodes =
+                map (fun p => let n := base_node m deps p in (en_pred n, en_type n, en_props n, en_carg n)) eps).
+    { rewrite Hn.
+      transitivity (map (fun t => let '(_, a, b, c, d) := t in (a, b, c, d))
+                        (map (fun n => (en_id n, en_pred n, en_type n, en_props n, en_carg n)) nodes1)).
+      - rewrite map_map. reflexivity.
+      - rewrite A1, map_map. unfold nodes0. rewrite map_map. reflexivity. }
+    split.
+    - transitivity (map (fun t => let '(a, _, _, d) := t in (a, d))
+                        (map (fun n => (en_pred n, en_type n, en_props n, en_carg n)) nodes)).
+      + rewrite map_map. reflexivity.
+      + rewrite B, map_map. rewrite <- Hsnd, map_map. apply map_ext. intros p.
+        destruct (base_node_attrs m deps p) as (_ & P & C & _). simpl. rewrite P, C. reflexivity.
+    - intros k n x Hk Hx Q v V.
+      assert (Hk' : nth_error (map (fun n => (en_pred n, en_type n, en_props n, en_carg n)) nodes) k =
+                    Some (en_pred n, en_type n, en_props n, en_carg n)) by (rewrite nth_error_map, Hk; reflexivity).
+      rewrite B, nth_error_map in Hk'.
+      destruct (nth_error eps k) as [p|] eqn:Ep; [|discriminate]. simpl in Hk'.
+      assert (Hpx : snd p = x).
+      { assert (Hq : nth_error (map snd eps) k = Some (snd p)) by (rewrite nth_error_map, Ep; reflexivity).
+        rewrite Hsnd in Hq. congruence. }
+      rewrite <- Hpx in Q, V. destruct (base_node_attrs m deps p) as (_ & _ & _ & T). specialize (T Q v V).
+      inversion Hk'. destruct T as [T1 T2]. rewrite <- T1, <- T2. split; congruence. }
+  destruct uniq.
+  - destruct (nodupb (map snd (new_ids_of eps))) eqn:Enb; [|intros H; discriminate].
+    intros H. injection H as He. subst e. simpl. exists ids. split; [reflexivity|].
+    destruct (Hattr (rename_nodes (new_ids_of eps) nodes1) (rename_nodes_attrs _ _)) as [X Y].
+    split; [exact X|]. split; [exact Y|].
+    intros Hnd. apply renamed_ids_unique; [rewrite Hfst; exact Hnd | rewrite Hfst; exact Hid1 | exact Enb].
+  - intros H. injection H as He. subst e. simpl. exists ids. split; [reflexivity|].
+    destruct (Hattr nodes1 eq_refl) as [X Y]. split; [exact X|]. split; [exact Y|].
+    intros Hnd. rewrite Hid1. exact Hnd.
 Qed.
